@@ -34,6 +34,7 @@ type PlanItem struct {
 type Plan struct {
 	Repo     string     `json:"repo"`
 	Harness  string     `json:"harness_dir"`
+	Extra    []string   `json:"extra_harness_dirs"`
 	Modfile  string     `json:"modfile"`
 	Workers  int        `json:"workers"`
 	Solver   string     `json:"solver"`
@@ -104,9 +105,18 @@ func main() {
 	planFile := flag.String("plan", "", "plan JSON")
 	outFile := flag.String("out", "", "result JSON")
 	verbose := flag.Bool("v", false, "")
+	genx := flag.String("genxdr", "", "write the generated XDR harness to this file and exit")
+	genrepo := flag.String("repo", "/repo", "")
 	smtlog := flag.String("smtlog", "", "")
 	flag.Parse()
 	_ = smtlog
+	if *genx != "" {
+		if err := genXdr(*genrepo, *genx); err != nil {
+			fmt.Fprintln(os.Stderr, "genxdr:", err)
+			os.Exit(3)
+		}
+		return
+	}
 	debug.SetGCPercent(200)
 	var plan Plan
 	b, err := os.ReadFile(*planFile)
@@ -129,6 +139,12 @@ func main() {
 	}
 	t0 := time.Now()
 	ov, _ := buildOverlay(plan.Repo, plan.Harness)
+	for _, d := range plan.Extra {
+		o2, _ := buildOverlay(plan.Repo, d)
+		for k, v := range o2 {
+			ov[k] = v
+		}
+	}
 	flags := []string{"-tags=verif"}
 	if plan.Modfile != "" {
 		flags = append(flags, "-modfile="+plan.Modfile)
